@@ -95,8 +95,19 @@ func (r *Run) newSigner(k *KeyPair, viaDirectory bool) cose.Signer {
 		}
 		r.Skip(fmt.Sprintf("NewSigner(%d, %s) failed: %v", k.Alg, k.Name, err))
 	}
+	if busySeams[r.Prop] && SeamInterludes && r.T.Bool(1, 4, "signer.busy") {
+		// an application signer around the built-in one that does COSE work
+		// of its own (seamInterlude) before it passes its input on
+		s = &SpySigner{Inner: s, Alg: s.Algorithm(), Tag: k.Name}
+		r.Fired("seam.reentrant-signer")
+	}
 	return s
 }
+
+// busySeams: worlds that otherwise hand go-cose the built-in signers and
+// verifiers as they are; there a quarter of the signers and verifiers are
+// wrapped into application objects with an interlude (see seamInterlude).
+var busySeams = map[string]bool{"C01": true, "C07": true, "C09": true}
 
 func (r *Run) verifierFor(k *KeyPair, viaDirectory bool) cose.Verifier {
 	if viaDirectory && directoryEligible(k) {
@@ -142,6 +153,10 @@ func (r *Run) verifierFor(k *KeyPair, viaDirectory bool) cose.Verifier {
 			r.Fail("verifier-cannot-be-built/"+baseName(k.Name), "NewVerifier(%d, public key of %s) failed: %v", k.Alg, k.Name, err)
 		}
 		r.Skip(fmt.Sprintf("NewVerifier(%d, %s) failed: %v", k.Alg, k.Name, err))
+	}
+	if busySeams[r.Prop] && SeamInterludes && r.T.Bool(1, 4, "verifier.busy") {
+		v = &SpyVerifier{Inner: v, Alg: v.Algorithm(), Tag: k.Name}
+		r.Fired("seam.reentrant-verifier")
 	}
 	return v
 }
@@ -275,7 +290,67 @@ func (r *Run) Decode(kind refcose.Kind, b []byte) (*Received, error) {
 	if err != nil {
 		return nil, err
 	}
+	if r.Prop != "C18" && r.T.Bool(1, 8, "decode.then-refused-into-same-variable") {
+		// the receiver's loop goes on: the next thing it reads into the same
+		// variable is refused (the same message with its signature - or its
+		// list of signatures - emptied: other header buckets, every item well formed, the
+		// refusal comes last).  A refused decode leaves the variable as it was, so the
+		// message just received is still what the caller works with.
+		if late := lateRefused(b); late != nil {
+			var err2 error
+			r.Lib(func() {
+				switch kind {
+				case refcose.KSignTagged:
+					err2 = rc.MS.UnmarshalCBOR(late)
+				case refcose.KSign1Tagged:
+					err2 = rc.M1.UnmarshalCBOR(late)
+				default:
+					err2 = (*cose.UntaggedSign1Message)(rc.M1).UnmarshalCBOR(late)
+				}
+			})
+			scribble(late)
+			if err2 == nil {
+				return nil, fmt.Errorf("verif: a message without signature bytes was accepted")
+			}
+			r.Fired("dest.reuse.refused-late")
+		}
+	}
 	return rc, nil
+}
+
+// lateRefused returns the message with an empty signature (COSE_Sign1) or an
+// empty list of signatures (COSE_Sign); nil when b is not such a message.
+func lateRefused(b []byte) []byte {
+	root, err := refcbor.ParseOne(b)
+	if err != nil {
+		return nil
+	}
+	arr := root
+	if arr.Major == refcbor.MTag && len(arr.Elems) == 1 {
+		arr = arr.Elems[0]
+	}
+	if arr.Major != refcbor.MArray || arr.Indef || len(arr.Elems) != 4 {
+		return nil
+	}
+	// other header buckets than the message just received (short ones, so
+	// that they fit whatever storage a decoder might recycle)
+	if arr.Elems[0].Major == refcbor.MBstr && arr.Elems[1].Major == refcbor.MMap {
+		prot := []byte{0xa1, 0x03, 0x00}
+		if bytes.Equal(arr.Elems[0].Data, prot) {
+			prot[2] = 0x01
+		}
+		arr.Elems[0] = refcbor.Bstr(prot)
+		arr.Elems[1] = refcbor.Map(refcbor.Uint(4), refcbor.Bstr([]byte{0}))
+	}
+	switch last := arr.Elems[3]; last.Major {
+	case refcbor.MBstr:
+		arr.Elems[3] = refcbor.Bstr(nil)
+	case refcbor.MArray:
+		arr.Elems[3] = refcbor.Array()
+	default:
+		return nil
+	}
+	return refcbor.Encode(root)
 }
 
 func scribble(b []byte) {
